@@ -47,11 +47,15 @@ def schedules(total, tier, rng, bounds):
         yield 'cut@%d+close' % c, {'cuts': (c,), 'eager_fin': True}
     for c in range(1, total, wide):
         yield 'cut@%d' % c, {'cuts': (c,)}
-    if tier == 'thorough':
+    if tier == 'thorough' and total <= 700:
         step = 1 if total <= 200 else (2 if total <= 320 else 4)
         for a in range(1, total, step):
             for b in range(a + 1, total, step):
                 yield 'cuts@%d,%d' % (a, b), {'cuts': (a, b)}
+    elif tier == 'thorough':
+        for _ in range(12000):
+            a, b = sorted(rng.sample(range(1, total), 2))
+            yield 'cuts@%d,%d' % (a, b), {'cuts': (a, b)}
     else:
         for _ in range(40):
             a, b = sorted(rng.sample(range(1, total), 2))
